@@ -1,6 +1,8 @@
 mod analyze;
+mod cli;
 mod corpus;
 mod lcheck;
+mod meta;
 
 use std::collections::HashMap;
 
@@ -61,6 +63,35 @@ fn main() {
                 shapes.add(&d.graph.shapes());
             }
             let v = json!({"profile": profile, "seed": seed, "definitions": defs.len(), "tried": tried, "shards": shards, "shape_histogram": shapes.to_json()});
+            write_out(&m, &v);
+        }
+        "det" => {
+            let count: usize = m.get("count").map(|s| s.parse().unwrap()).unwrap_or(40);
+            let v = meta::det(seed, count, threads.min(8));
+            write_out(&m, &v);
+        }
+        "perm" => {
+            let count: usize = m.get("count").map(|s| s.parse().unwrap()).unwrap_or(300);
+            let v = meta::perm(seed, count, threads);
+            write_out(&m, &v);
+        }
+        "fuzz" => {
+            let count: usize = m.get("count").map(|s| s.parse().unwrap()).unwrap_or(3000);
+            let v = meta::fuzz(seed, count, threads);
+            write_out(&m, &v);
+        }
+        "cli-gen" => {
+            let count: usize = m.get("count").map(|s| s.parse().unwrap()).unwrap_or(40);
+            let v = cli::gen_files(seed, count, std::path::Path::new(m.get("dir").expect("--dir")));
+            write_out(&m, &v);
+        }
+        "cli-oracle" => {
+            let v = cli::oracle_batch(std::path::Path::new(m.get("dir").expect("--dir")));
+            write_out(&m, &v);
+        }
+        "rsample-gen" => {
+            let count: usize = m.get("count").map(|s| s.parse().unwrap()).unwrap_or(100);
+            let v = meta::rsample_write(seed, count, std::path::Path::new(m.get("dir").expect("--dir")));
             write_out(&m, &v);
         }
         "replay" => {
